@@ -6,6 +6,7 @@ from .. import inputs
 from . import geom
 
 SPEC = dict(
+    technique='Lean 4 proof (angle sets = documented products, units, orders; regenerated model) + float monitor of the extraction functions',
     lean_modules=['SmVerif.Props.C05'],
     groups=['Transforms3d', 'Transforms2d'],
     expected_untranslatable=('trinterp_T', 'trinterp_T_nostart'),
